@@ -624,7 +624,7 @@ def jobs(tier: str):
         ):
             for vi, (pre, post) in enumerate(variants):
                 for n in range(0, b["chars"] + 1):
-                    if entry in ("url-host", "referer", "url-query", "query_params") and n > 2:
+                    if entry in ("url-host", "referer", "url-query", "query_params", "url-path") and n > 2:
                         continue
                     if entry == "multipart-ctype" and "charset=" in pre and n > 0:
                         continue  # the charset reaches real codecs: concrete recipes only
